@@ -32,7 +32,7 @@ VARIABLES prog,    \* Seq of lines; a line is [k: kind, items: Seq(Item), st: st
           wrapped  \* the current function sits inside a conditional-compilation block (#ifdef ... #endif)
 nvars == <<prog, phase, nfun, body, open, elseOK, ndecl, viol, scope, wrapped>>
 
-NoViol == [op |-> "none", line |-> 0, code |-> {}, site |-> [k |-> "", lit |-> "", prev |-> "", next |-> "", first |-> "", tabs |-> 0]]
+NoViol == [op |-> "none", line |-> 0, code |-> {}, site |-> [k |-> "", lit |-> "", prev |-> "", next |-> "", next2 |-> "", first |-> "", tabs |-> 0]]
 TAB1 == [s |-> "T", x |-> "\t", w |-> 0, n |-> 0]
 Tabs(n) == [i \in 1..n |-> TAB1]
 Line(k, st, items) == [k |-> k, st |-> st, items |-> items]
